@@ -50,6 +50,15 @@ def make_targets(a, prog):
     has_gold = any(n.endswith('__GOLDPURCHASES') for n in names)
     if not has_gold:
         out.append(('numeraire-zero', V(fx.GetVariableName('NET_' + ext.Currency))))
+    # gold purchases conserve value: the ounces credited, valued at the gold price, equal the payment valued at the
+    # buyer's exchange rate
+    for s in mod.GetSectors():
+        if 'GOLDPURCHASES' in s.EquationBlock and 'GOLD_OZ' in s.EquationBlock:
+            cur = s.CurrencyZone.Currency
+            oz = ('sub', V(s.GetVariableName('GOLD_OZ')), V(s.GetVariableName('LAG_GOLD_OZ')))
+            out.append(('gold-value|%s' % s.FullCode,
+                        ('sub', ('mul', oz, V(ext['GOLD'].GetVariableName('PRICE'))),
+                         ('mul', V(s.GetVariableName('GOLDPURCHASES')), V(xr.GetVariableName(cur))))))
     for v in xr.EquationBlock.GetEquationList():
         if '_' in v:
             a_, b_ = v.split('_', 1)
